@@ -77,6 +77,24 @@ func (x *symExec) cond(e ast.Expr) (bool, error) {
 			if err != nil {
 				return false, err
 			}
+			if lc && rc {
+				_, _, lv, _ := x.operand(b.X)
+				_, _, rv, _ := x.operand(b.Y)
+				switch b.Op {
+				case token.EQL:
+					return lv == rv, nil
+				case token.NEQ:
+					return lv != rv, nil
+				case token.LSS:
+					return lv < rv, nil
+				case token.LEQ:
+					return lv <= rv, nil
+				case token.GTR:
+					return lv > rv, nil
+				case token.GEQ:
+					return lv >= rv, nil
+				}
+			}
 			if lc || rc {
 				return false, fmt.Errorf("comparison with a constant is outside the enumerated domain")
 			}
